@@ -1063,8 +1063,7 @@ fiSIntLength(FiSInt i)
 FiSInt
 fiSIntTimesMod(FiSInt a,FiSInt  b,FiSInt m)
 {
-	/*!! Not yet implemented */
-	return 0;
+	return (a * b) % m;
 }
 
 FiSInt
